@@ -96,7 +96,7 @@ func TestVerifC18IPv4(t *testing.T) {
 			rep.Eval()
 			if want && !got {
 				rep.AddViolation(verifkit.Violation{Key: "C18/refused-floor-not-refused/" + c.name,
-					Text: fmt.Sprintf("Refuse(%s) = false (carrier %s of %s), but the embedded IPv4 is in the refused floor: %s", ip, c.name, net.IP(c.mk(v)), why),
+					Text:   fmt.Sprintf("Refuse(%s) = false (carrier %s of %s), but the embedded IPv4 is in the refused floor: %s", ip, c.name, net.IP(c.mk(v)), why),
 					Replay: map[string]any{"ipv4": v, "carrier": c.name, "ip": ip.String()}})
 			}
 			if !want && got && ci < 2 {
@@ -358,7 +358,7 @@ func TestVerifC18Dial(t *testing.T) {
 	alphabet := []string{"93.184.216.34", "127.0.0.1", "10.0.0.5", "169.254.169.254", "100.64.0.1", "2606:4700::1111", "fd00::1", "::ffff:10.0.0.5", "64:ff9b::a00:5", "224.0.0.1", "0.0.0.0", "::1", "192.168.1.1", "2002:a00:5::1"}
 	public := map[string]bool{"93.184.216.34": true, "2606:4700::1111": true}
 	allowlists := map[string][]AllowEntry{
-		"none":              nil,
+		"none":                nil,
 		"carve 10.0.0.5:8080": {{Scheme: "http", Host: "10.0.0.5", Port: "8080", IP: net.ParseIP("10.0.0.5")}},
 		"carve 127.0.0.1:80":  {{Scheme: "http", Host: "127.0.0.1", Port: "80", IP: net.ParseIP("127.0.0.1")}},
 		"hostname only":       {{Scheme: "https", Host: "internal.example", Port: "443"}},
